@@ -771,11 +771,12 @@ func (rles RLEs) Partition(blockSize Point3d) (BlockRLEs, error) {
 // FitToBounds returns a copy that has been adjusted to fit
 // within the given optional bounds.
 func (rles RLEs) FitToBounds(bounds *OptionalBounds) RLEs {
-	newRLEs := make(RLEs, 0, len(rles))
 	if bounds == nil {
+		newRLEs := make(RLEs, len(rles))
 		copy(newRLEs, rles)
 		return newRLEs
 	}
+	newRLEs := make(RLEs, 0, len(rles))
 	for _, rle := range rles {
 		if bounds.minz != nil && rle.start[2] < *(bounds.minz) {
 			continue
